@@ -139,7 +139,12 @@ pub fn build(c: &Case) -> (Vec<Ent>, Vec<Vec<u8>>, u8) {
         Class::NoArgs => paths = vec![],
         Class::SinglePath => paths = vec![s("v0")],
         Class::MissingSource => {
-            valid.insert(pos, s(if c.variant & 2 != 0 { "no/such/file" } else { "nonexistent" }));
+            if c.variant & 4 != 0 {
+                // with -L a dangling symbolic link is a source that does not exist
+                ents.push(Ent::link(b"dang", b"nowhere"));
+                flags.push(s("-L"));
+            }
+            valid.insert(pos, s(if c.variant & 4 != 0 { "dang" } else if c.variant & 2 != 0 { "no/such/file" } else { "nonexistent" }));
             paths = valid;
             paths.push(s("d"));
             if !dest_is_dir && paths.len() > 2 {
@@ -348,6 +353,9 @@ pub fn judge(c: &Case, rec: &mut Rec) -> Verdict {
         Err(e) => return Verdict::Inconclusive(format!("snapshot: {e}")),
     };
     let dsn = ["absent", "file", "emptydir", "populated"][ds as usize % 4];
+    if c.class == Class::MissingSource && c.variant & 4 != 0 {
+        rec.class(format!("MissingSource|dangling-link-with-L|pos={}", std::cmp::min(c.pos, c.nvalid % 4)));
+    }
     let key = format!("{:?}|pos={}|dest={}|{}", c.class, std::cmp::min(c.pos, c.nvalid % 4), dsn, if c.parblock { "parblock" } else { "parfile" });
     let new = rec.class(key);
     rec.nontrivial(case_hash(c));
